@@ -19,6 +19,7 @@ finding D21) and machine stack depth are outside the model.
 -/
 import EtkVerif.Annot.Total
 import EtkVerif.Cfg.Lemmas
+import EtkVerif.Cfg.Pipeline
 namespace EtkVerif.C15
 open Ops Annot Smt Cfg
 
@@ -37,5 +38,15 @@ theorem C15_cfg (t : OpTable) (bs : List Blocks.Block) (anns : List Annotated) (
   obtain ⟨g, hg⟩ := cfgNew_total t bs anns hS
   obtain ⟨g', hr⟩ := refine_total t bs anns hS g hg sat
   exact ⟨g, g', hg, hr⟩
+
+/-- C15 end to end, on raw code bytes: for every byte string (bytes < 256) of at most
+65536 bytes whose blocks stay within the annotator's variable budget, disassembling,
+separating, annotating every block, building and refining the graph complete
+without any panic outcome — for every solver. -/
+theorem C15_pipeline (code : List Nat) (hb : ∀ b ∈ code, b < 256) (hlen : code.length ≤ 65536)
+    (hbudget : ∀ b ∈ Pipeline.blocks code, popBudget Gen.cancun b.ops ≤ 65535) (sat : List BTerm → Bool) :
+    ∃ anns g g', Pipeline.annotateAll Gen.cancun (Pipeline.blocks code) = .ok anns ∧
+      cfgNew anns = .ok g ∧ refine sat g = .ok g' :=
+  Pipeline.pipeline_total code hb hlen hbudget sat
 
 end EtkVerif.C15
